@@ -34,9 +34,9 @@ static long fail_at = 0;           // >0: the fail_at-th new[] in the window thr
 static bool fault_fired = false;
 static long scalar_live = 0;       // scalar new/delete balance inside windows
 struct HeapEv { const char* k; int id; };
-static HeapEv hevs[64];
+static HeapEv hevs[512];
 static int nhev = 0;
-static void add_hev(const char* k, int id) { if (nhev < 64) { hevs[nhev].k = k; hevs[nhev].id = id; nhev++; } }
+static void add_hev(const char* k, int id) { if (nhev < 512) { hevs[nhev].k = k; hevs[nhev].id = id; nhev++; } }
 static int find_ledger(void* p) { for (int i = 0; i < nledger; i++) if (ledger[i].p == p) return i; return -1; }
 static int id_of(const void* p) { int i = find_ledger(const_cast<void*>(p)); return i < 0 ? 0 : ledger[i].id; }
 
@@ -254,6 +254,11 @@ int main(int argc, char** argv) {
     else if (cmd == "MoveAssign") { in >> t >> a; window(head_of(cmd, t, a, b, "", "", 0, 0, 0, 0, 0), 0, [&] { V(t) = std::move(V(a)); }); }
     else if (cmd == "CompoundVec") { in >> t >> w >> a; window(head_of(cmd, t, a, b, "", w, 0, 0, 0, 0, 0), 0, [&] { if (w == "+=") V(t) += V(a); else V(t) -= V(a); }); }
     else if (cmd == "CompoundScalar") { in >> t >> w; window(head_of(cmd, t, a, b, "", w, 0, 0, 0, 0, 0), 0, [&] { if (w == "*=") V(t) *= 3.0; else V(t) /= 0.5; }); }
+    else if (cmd == "Burst") { long n; in >> d >> n;     // n temporaries of one dimension alive at once, then all released (cache capacity)
+      window(head_of(cmd, t, a, b, "", "", d, 0, n, 0, 0), 0, [&] {
+        std::vector<SU_vector> tmp; tmp.reserve(n);
+        for (long i = 0; i < n; i++) tmp.emplace_back((unsigned)d);
+        tmp.clear(); }); }
     else if (cmd == "Probe") { in >> t >> op;    // read-only calls that create internal temporaries
       window(head_of(cmd, t, a, b, op, "", 0, 0, 0, 0, 0), 0, [&] {
         const SU_vector& v = V(t);
